@@ -30,6 +30,7 @@ type vfC09Case struct {
 	After  int      `json:"after"`
 	TClose bool     `json:"tclose"`
 	Chunks []string `json:"chunks"`
+	PWFail int      `json:"pwfail"` // the n-th Write of the server on the peer connection fails (0 = never)
 }
 
 func vfC09Open(t *testing.T) (*bufio.Scanner, *bufio.Writer, func()) {
@@ -62,7 +63,13 @@ func vfC09Gen(t *testing.T, sc *bufio.Scanner, w *bufio.Writer) {
 		if err := json.Unmarshal([]byte(ln), &g); err != nil {
 			t.Fatalf("bad gen spec %q: %v", ln, err)
 		}
-		p, err := vfC09GenPacket(g)
+		var p []byte
+		var err error
+		if g.Kind == "seal" {
+			p, err = vfC09Seal(g)
+		} else {
+			p, err = vfC09GenPacket(g)
+		}
 		if err != nil {
 			t.Fatalf("gen %s: %v", g.ID, err)
 		}
@@ -154,7 +161,10 @@ func TestVerifC09(t *testing.T) {
 			stream = append(stream, b...)
 		}
 		sta := fac.fresh(c.Now)
-		o := vfC09RunScenario(sta, chunks, c.End == "eof", c.Dial, vfC09Unhex(c.Reply), c.After, c.TClose)
+		o := vfC09RunScenarioX(sta, chunks, c.End == "eof", c.Dial, vfC09Unhex(c.Reply), c.After, c.TClose, c.PWFail)
 		fmt.Fprintf(w, "%s %s | %s\n", c.ID, o.String(), vfC09Tables(stream, c.End == "eof", fac, c.Now))
+		// one line per case reaches the file at once: if a goroutine of the server panics outside every recover the
+		// process dies, and the first case without a line is the input that killed it
+		w.Flush()
 	}
 }
